@@ -335,8 +335,72 @@ def res_dump(res, key):
     return r['ok']
 
 
+def irregular_text(rng, doc):
+    """Round 6 (class G): the canonical text of a document whose data rows do NOT carry exactly one cell per column --
+    trailing cells left out (down to the bare table name) or extra tokens after the last column.  The format requires
+    complete rows: there is no meaning to compare with, only model against code (raw mode, column by column); what the
+    record-array mode does with them (raises / pads) is recorded, not judged.  -> (text, forms used)"""
+    from harness.props import c03 as H3
+    d = dict(doc, comments=['irregular rows'])
+    full = H3.render_text(d).split('\n')
+    nrows = sum(len(t['rows']) for t in doc['tables'])
+    head = full[:len(full) - 1 - nrows]
+    used = {'short-row': 0, 'over-long-row': 0, 'full-row': 0, 'bare-table-name-row': 0}
+    lines = []
+    for t in doc['tables']:
+        for r in t['rows']:
+            cells = []
+            for c, v in zip(t['cols'], r):
+                tok = lambda x: H3.py_protect(x) if isinstance(x, str) else str(x)
+                cells.append('{' + ' '.join(tok(x) for x in v) + '}' if isinstance(v, list) else tok(v))
+            u = rng.random()
+            if u < 0.4:
+                keep = rng.randint(0, len(cells) - 1)
+                cells = cells[:keep]
+                used['bare-table-name-row' if keep == 0 else 'short-row'] += 1
+                if cells and cells[-1].endswith('\\'):
+                    cells[-1] += '/'
+            elif u < 0.65:
+                cells += rng.sample(['17', 'more', '"more text"', '{1 2}', '0.5', '{{}}', '""', 'x;y'], rng.randint(1, 3))
+                used['over-long-row'] += 1
+            else:
+                used['full-row'] += 1
+            lines.append(' '.join([t['name'].upper()] + cells) + rng.choice(['', '', ' ', ' # remark', '\t']))
+    rng.shuffle(lines)
+    return '\n'.join(head + lines) + '\n', {k: v for k, v in used.items() if v}
+
+
+def gen_irregular_jobs(ctx):
+    rng = ctx.rng
+    jobs = []
+    k = 0
+    while len(jobs) < ctx.n(50, 500):
+        doc = G.gen_doc(rng, 'ndarray', ntables=rng.choice([1, 2, 2, 3]), allow_u=False, max_rows=4)
+        for t in doc['tables']:                      # integer and string columns only (raw floats are python floats: another text)
+            keep = [j for j, c in enumerate(t['cols']) if c['code'][0] != 'f']
+            t['cols'] = [t['cols'][j] for j in keep]
+            t['rows'] = [[r[j] for j in keep] for r in t['rows']]
+        if any(not t['cols'] or not t['rows'] for t in doc['tables']):
+            continue
+        for t in doc['tables']:
+            for r in t['rows']:
+                if isinstance(r[-1], str) and r[-1].endswith('\\'):
+                    r[-1] = r[-1][:-1] + '/'
+        text, used = irregular_text(rng, doc)
+        if not layout_ok_text(text):
+            continue
+        jobs.append({'kind': 'read', 'id': 'g%05d' % k, 'doc': doc, 'text': text, 'tag': 'irregular', 'used': used,
+                     'text_hex': text.encode('latin-1').hex()})
+        k += 1
+    return jobs
+
+
 def case_term(job, res):
     doc = job['doc']
+    if job['tag'] == 'irregular':
+        exp = G.expected(doc)
+        return '(CRawRows %s %s %s)' % (G.blit(job['text']), C.optlit(res_dump(res, 'path_raw'), lambda d: G.rdoc_term(d, exp)),
+                                        C.optlit(res_dump(res, 'bin_raw'), lambda d: G.rdoc_term(d, exp)))
     exp = G.expected(doc)
     raw_exp = exp
     it = res_dump(res, 'path')
@@ -411,6 +475,7 @@ def correspond(ctx, proof_ok=True):
     for k, (note, doc, text) in enumerate(FIXED_DOCS):
         jobs.append({'kind': 'read', 'id': 'x%05d' % k, 'doc': doc, 'text': text, 'tag': 'layout', 'used': {'fixed': 1},
                      'text_hex': text.encode('latin-1').hex(), 'note': note})
+    jobs += gen_irregular_jobs(ctx)
     results, pydl_file = C01.run_jobs(ctx, jobs)
     ctx.coverage['pydl_file'] = pydl_file
     terms = [case_term(j, r) for j, r in zip(jobs, results)]
@@ -425,6 +490,21 @@ def correspond(ctx, proof_ok=True):
     for job, res, v, term in zip(jobs, results, verdicts, terms):
         for k, n in job['used'].items():
             used[k] = used.get(k, 0) + n
+        if job['tag'] == 'irregular':
+            # model against code only; the non-raw outcome is recorded
+            r = res.get('path') or {}
+            key = 'irregular-rows:record-mode:%s' % (r.get('exc') or 'returns-a-table')
+            dist[key] = dist.get(key, 0) + 1
+            if res.get('bystander_changed'):
+                failing.setdefault('C02:layout:another-live-object-changed:', []).append((len(job['text']), job, res, v, 'another-live-object-changed', [res['bystander_changed']]))
+            elif v & 1 and 'C02:model:parse:irregular-rows' not in seen:
+                seen.add('C02:model:parse:irregular-rows')
+                ctx.violation('C02:model:parse:irregular-rows', 'raw reader model and implementation disagree on a file with short / over-long data rows '
+                              '(what the raw object holds per column)',
+                              {'kind': 'broken-correspondence', 'item': 'Yanny.Parse.parse_raw (row loop: short and over-long rows)', 'doc': job['doc'],
+                               'text': job['text'], 'verdict': v, 'row_forms': job['used'],
+                               'impl_raw': res.get('path_raw')}, False)
+            continue
         out, det = py_outcome(job, res)
         dist[out] = dist.get(out, 0) + 1
         if v & 4:
